@@ -56,7 +56,7 @@ def mk_PRISM(f, n, spaces=None, minN=3):
 
 # --------------------------------------------------------------------------- g = h + 1
 
-@contract(CALC + 'pair_correlation.py::pair_correlation', props=['C05', 'C06'])
+@contract(CALC + 'pair_correlation.py::pair_correlation', props=['C05', 'C06', 'C02'])
 def pair_correlation(PRISM):
     if PRISM.totalCorr.space == Space.Fourier:
         PRISM.sys.domain.MatrixArray_to_real(PRISM.totalCorr)       # representation flip only
@@ -68,7 +68,7 @@ def pair_correlation(PRISM):
 
 # --------------------------------------------------------------------------- w = -kT ln g
 
-@contract(CALC + 'pmf.py::pmf', props=['C05', 'C06'])
+@contract(CALC + 'pmf.py::pmf', props=['C05', 'C06', 'C04'])
 def pmf(PRISM):
     if PRISM.totalCorr.space == Space.Fourier:
         PRISM.sys.domain.MatrixArray_to_real(PRISM.totalCorr)
@@ -82,7 +82,7 @@ def pmf(PRISM):
 
 # --------------------------------------------------------------------------- S = rho_pair h + Omega  [/ rho_site]
 
-@contract(CALC + 'structure_factor.py::structure_factor', props=['C05', 'C06'])
+@contract(CALC + 'structure_factor.py::structure_factor', props=['C05', 'C06', 'C02'])
 def structure_factor(PRISM, normalize=True):
     if PRISM.totalCorr.space == Space.Real:
         PRISM.sys.domain.MatrixArray_to_fourier(PRISM.totalCorr)
@@ -101,7 +101,7 @@ def structure_factor(PRISM, normalize=True):
 
 # --------------------------------------------------------------------------- B2 = -h(k->0)/2
 
-@contract(CALC + 'second_virial.py::second_virial', props=['C05', 'C06'])
+@contract(CALC + 'second_virial.py::second_virial', props=['C05', 'C06', 'C02'])
 def second_virial(PRISM, extrapolate=True):
     if PRISM.totalCorr.space == Space.Real:
         PRISM.sys.domain.MatrixArray_to_fourier(PRISM.totalCorr)
